@@ -144,6 +144,17 @@ func (x *Ctx) wrapperSymmetryOpt(r *core.Result, rs *core.RuleStat, storeBack bo
 			}
 		}
 		key := n + ":wrapper"
+		if len(calls) == 1 {
+			// single-call shape: the stack handed to the machine is nil or buffer.stackBuf (chosen by a nil test on the buffer);
+			// data / handler are the wrapper's own parameters; the grown stack is stored back under buffer != nil
+			if msg := x.singleCallWrapper(fn, calls[0], bufParam, storeBack); msg != "" {
+				r.Fail(rs, key, x.W.Pos(calls[0].Pos()), msg)
+			} else {
+				rs.OK(1)
+				rs.Sample(n + ": one call of " + calls[0].Call.StaticCallee().Name() + "; the buffer only chooses the stack argument")
+			}
+			continue
+		}
 		if len(calls) != 2 {
 			r.Fail(rs, key, x.W.Pos(fn.Pos()), fmt.Sprintf("expected one machine call per branch (nil / non-nil buffer), found %d", len(calls)))
 			continue
@@ -281,4 +292,71 @@ func isIntSlice(t types.Type) bool {
 	}
 	b, ok := s.Elem().Underlying().(*types.Basic)
 	return ok && b.Kind() == types.Int
+}
+
+// singleCallWrapper: the wrapper calls the machine once; the buffer influences only the stack argument (and the store-back).
+func (x *Ctx) singleCallWrapper(fn *ssa.Function, c *ssa.Call, buf *ssa.Parameter, storeBack bool) string {
+	fromBuffer := func(v ssa.Value) bool {
+		u, ok := v.(*ssa.UnOp)
+		if !ok || u.Op != token.MUL {
+			return false
+		}
+		fa, ok := u.X.(*ssa.FieldAddr)
+		return ok && fa.X == ssa.Value(buf)
+	}
+	var stackOK func(v ssa.Value, seen map[ssa.Value]bool) bool
+	stackOK = func(v ssa.Value, seen map[ssa.Value]bool) bool {
+		if seen[v] {
+			return true
+		}
+		seen[v] = true
+		if isNilConst(v) || fromBuffer(v) {
+			return true
+		}
+		if phi, ok := v.(*ssa.Phi); ok {
+			for _, e := range phi.Edges {
+				if !stackOK(e, seen) {
+					return false
+				}
+			}
+			return true
+		}
+		return false
+	}
+	nStack := 0
+	for _, a := range c.Call.Args {
+		if isIntSlice(a.Type()) {
+			nStack++
+			if !stackOK(a, map[ssa.Value]bool{}) {
+				return "the stack handed to the machine is neither nil nor the buffer's stack"
+			}
+			continue
+		}
+		if _, isParam := a.(*ssa.Parameter); !isParam {
+			if mi, isMI := a.(*ssa.MakeInterface); !isMI || func() bool { _, p := mi.X.(*ssa.Parameter); return !p }() {
+				return "an argument of the machine call is not the wrapper's own parameter"
+			}
+		}
+	}
+	if nStack != 1 {
+		return "the machine call does not take exactly one stack argument"
+	}
+	if storeBack {
+		stored := false
+		for _, ref := range *c.Referrers() {
+			if ex, ok := ref.(*ssa.Extract); ok && isIntSlice(ex.Type()) {
+				for _, u := range *ex.Referrers() {
+					if st, ok := u.(*ssa.Store); ok {
+						if fa, ok := st.Addr.(*ssa.FieldAddr); ok && fa.X == ssa.Value(buf) {
+							stored = true
+						}
+					}
+				}
+			}
+		}
+		if !stored {
+			return "the grown stack is not stored back into the buffer"
+		}
+	}
+	return ""
 }
